@@ -36,7 +36,7 @@ def run(ctx):
     ]
     t0 = time.time()
     ctx.cov["phase_s"] = {}
-    p_ok = c.standard_P(ctx, CLAIM["gens"], L.SUPPORT + ["Enc/IntBridge.v", "Enc/C12Proofs.v"])
+    p_ok = c.standard_P(ctx, CLAIM["gens"], L.SUPPORT + ["Enc/C12Proofs.v"])
     ctx.cov["phase_s"]["P"] = round(time.time() - t0, 1)
     problems = []
     if not p_ok:
@@ -51,8 +51,8 @@ def run(ctx):
     if not mok:
         problems.append(("T", "model extraction/driver build failed: " + mexe[-1200:]))
     d = L.work("C12")
-    n = 1200 if ctx.tier == "quick" else 12000
-    extra = ["-flags", "rand:2" if ctx.tier == "quick" else "rand:6"]
+    n = 1200 if ctx.tier == "quick" else 30000
+    extra = ["-flags", "rand:2" if ctx.tier == "quick" else "rand:4"]
     only = None
     if ctx.replay:
         try:
